@@ -1,7 +1,12 @@
 import Oracle.Proto
-/-! Oracle suites of property C09 (registered in Oracle/Main.lean through `suites`). -/
+import Oracle.Persistence
+/-! Oracle suites of property C09 (registered in Oracle/MainC09.lean through `suites`). -/
 namespace Oracle.C09
 
-def suites : List (String × Suite) := []
+def suites : List (String × Suite) := [
+  ("persist", Oracle.Persistence.model),
+  ("persist-spec", Oracle.Persistence.spec),
+  ("persist-original", Oracle.Persistence.original)
+]
 
 end Oracle.C09
